@@ -686,7 +686,10 @@ class VcfZarrWriter:
         if partition_index < 0 or partition_index >= self.num_partitions:
             raise ValueError("Partition index not in the valid range")
         partition_path = self.wip_partition_path(partition_index)
-        partition_path.mkdir(exist_ok=True)
+        if partition_path.exists():
+            # Leftovers of an interrupted attempt must not end up in the store
+            shutil.rmtree(partition_path)
+        partition_path.mkdir()
         logger.info(f"Encoding partition {partition_index} to {partition_path}")
 
         self.encode_id_partition(partition_index)
